@@ -124,6 +124,8 @@ fn run_scenario(out: &mut Out, st: &mut Stats, world: &World, tx: &TxSpec, repla
                     None => fails.push(("return-without-call".into(), format!("{m} at pc {}", s.pc))),
                     Some(p) => {
                         let mut bad = vec![];
+                        // --perturb 1 (self-test of the oracle, never used by ./check)
+                        if std::env::args().any(|a| a == "--perturb") && ra[20] == p.regs[20] { bad.push("self-test perturbation".to_string()); }
                         for k in (0..64usize).filter(|k| !NOT_RESTORED.contains(k)) {
                             if ra[k] != p.regs[k] { bad.push(format!("register {k}: {} at the call, {} after the return", p.regs[k], ra[k])); }
                         }
@@ -192,7 +194,7 @@ fn main() {
         }
     } else {
         // stream A: call trees
-        for k in 0..args.scale(70, 3000) {
+        for k in 0..args.scale(70, 550) {
             let n = rng.range(1, 4) as usize;
             let recursion = match k % 5 { 0 => 0, 1 => rng.range(1, 4), 2 => rng.range(5, 12), 3 => rng.range(10, 20), _ => rng.range(20, 27) };
             let cfg = TreeCfg { n_contracts: n, recursion, hostile: Hostile::None, hostile_unit: 0, ldc: rng.chance(1, 4),
@@ -203,7 +205,7 @@ fn main() {
             run_scenario(&mut out, &mut st, &t.scn.world, &t.scn.tx, rj, "tree", oo);
         }
         // stream B: vmtrace's grammar (random register contents, all instruction kinds between calls)
-        for _ in 0..args.scale(50, 2000) {
+        for _ in 0..args.scale(50, 400) {
             let mut cfg = GenCfg::default();
             cfg.n_contracts = rng.range(1, 4) as usize;
             cfg.unit_items = rng.range(4, 16) as usize;
